@@ -92,8 +92,8 @@ fn main() {
 
     // ---- random streams (state carries over from command to command)
     let k4 = known.clone();
-    eng.generated_min(iso("rip_random", 60_000, 2_000_000).shrink_budget(150), || rip::case_strategy(10), move |c| rip::check(c, &k4), |_| "rip|stream".to_string(), rip::minimize);
+    eng.generated_min(iso("rip_random", 60_000, 2_000_000).shrink_budget(100), || rip::case_strategy(10), move |c| rip::check(c, &k4), |_| "rip|stream".to_string(), rip::minimize);
     let k5 = known.clone();
-    eng.generated_min(iso("igs_random", 80_000, 2_000_000).shrink_budget(150), || igs::case_strategy(10), move |c| igs::check(c, &k5), |_| "igs|stream".to_string(), igs::minimize);
+    eng.generated_min(iso("igs_random", 80_000, 2_000_000).shrink_budget(40), || igs::case_strategy(10), move |c| igs::check(c, &k5), |_| "igs|stream".to_string(), igs::minimize);
     eng.run();
 }
